@@ -143,8 +143,9 @@ Definition same_region (m : smap) (a : Z) : bool :=
   | _, _, _, _ => false
   end.
 
-(* regions whose exclusive end is not a u64 are outside the property's domain *)
-Definition wraps (a : Z) (d : list Z) : bool := negb ((0 <=? a) && (a + Z.of_nat (List.length d) <? 18446744073709551616)).
+(* regions that wrap the address space (end beyond 2^64) are outside the property's domain;
+   a region ending exactly at 2^64 is judged *)
+Definition wraps (a : Z) (d : list Z) : bool := negb ((0 <=? a) && (a + Z.of_nat (List.length d) <=? 18446744073709551616)).
 
 Inductive verdict := Bad | Silent | Good (m : smap).
 
